@@ -26,4 +26,27 @@ def cmdBorrow (l : String) : String :=
     | none => "accept"
     | some i => s!"reject {i}"
   | none => "bad-op"
+/-- `fvdriver retlife`: `<b|i> <var>` with var = `q`* followed by L (local value) | V (by-value parameter) | R (reference parameter)
+    → `<retRejects> <dangling>` -/
+def parseRVar? (s : String) : Option RVar :=
+  let rec go : List Char → Option RVar
+    | ['L'] => some .localVal
+    | ['V'] => some .paramVal
+    | ['R'] => some .paramRef
+    | 'q' :: r => (go r).map .refTo
+    | _ => none
+  go s.toList
+
+def cmdRetLife (l : String) : String :=
+  match fields l with
+  | [f, v] =>
+    match parseRVar? v with
+    | some v =>
+      let form? : Option RetForm := if f == "b" then some (.borrow v) else if f == "i" then some (.ident v) else none
+      match form? with
+      | some form => s!"{retRejects form} {form.dangling}"
+      | none => "bad-op"
+    | none => "bad-op"
+  | _ => "bad-op"
+
 end FerretVerif.Drv
